@@ -202,6 +202,44 @@ Theorem C22_periodic_handler_called_at_multiples S ss thandlers flow cf reportAl
 Proof. exact (periodic_handler_called_at_multiples S ss thandlers flow cf reportAll time s orc st s' rest log uses interval). Qed.
 Print Assumptions C22_periodic_handler_called_at_multiples.
 
+(** "later integration starts from the state the handlers produced" (model level): after a triggered event the called
+    handlers see, in registration order, the trajectory state at the advanced time and then each other's results; the
+    state kept for the integrator is the last handler's result at that same time ... *)
+Theorem C22_resumes_from_triggered_handlers S ss thandlers flow time s u l s2 stop :
+  ts_body S [ss] thandlers flow time s u = (l, s2, stop) ->
+  a_status (u_ans u) = ReachedEventTrigger ->
+  let a := u_ans u in
+  let st0 := flow (ts_pay s) (ts_tadv s) (a_tadv a) in
+  let hs := called th_id (a_ids a) thandlers in
+  map (@k_in S) l = inputs S th_act (a_tadv a) hs st0 /\ map (@k_id S) l = map (@th_id S) hs /\
+  ts_pay s2 = apply_all S th_act (a_tadv a) hs st0 /\ ts_tadv s2 = a_tadv a.
+Proof. exact (resumes_from_triggered_handlers S ss thandlers flow time s u l s2 stop). Qed.
+Print Assumptions C22_resumes_from_triggered_handlers.
+
+(** ... the same for a scheduled event (handlers in order, then the reporters due at that time see the handlers' result) ... *)
+Theorem C22_resumes_from_scheduled_handlers S ss thandlers flow time s u l s2 stop :
+  ts_body S [ss] thandlers flow time s u = (l, s2, stop) ->
+  a_status (u_ans u) = ReachedScheduledEvent ->
+  let a := u_ans u in
+  let st0 := flow (ts_pay s) (ts_tadv s) (a_tadv a) in
+  let hs := called h_id (u_evids u) (ss_handlers ss) in
+  let st1 := apply_all S h_act (a_tadv a) hs st0 in
+  exists lh lr, l = lh ++ lr /\
+    map (@k_in S) lh = inputs S h_act (a_tadv a) hs st0 /\ map (@k_id S) lh = map (@h_id S) hs /\
+    (forall k, In k lr -> k_cause k = CReport /\ k_in k = st1) /\
+    ts_pay s2 = st1 /\ ts_tadv s2 = a_tadv a.
+Proof. exact (resumes_from_scheduled_handlers S ss thandlers flow time s u l s2 stop). Qed.
+Print Assumptions C22_resumes_from_scheduled_handlers.
+
+(** ... and the next integrator call continues the trajectory from exactly that state and time *)
+Theorem C22_next_step_continues_from_state S ss thandlers flow time s u l s2 stop time' u' l' s3 stop' :
+  ts_body S [ss] thandlers flow time s u = (l, s2, stop) ->
+  ts_body S [ss] thandlers flow time' s2 u' = (l', s3, stop') ->
+  a_status (u_ans u') = StartOfContinuousInterval \/ a_status (u_ans u') = ReachedStepLimit ->
+  ts_pay s3 = flow (ts_pay s2) (ts_tadv s2) (a_tadv (u_ans u')).
+Proof. intros H1. exact (next_step_continues_from_state S ss thandlers flow time s u l s2 stop H1 time' u' l' s3 stop'). Qed.
+Print Assumptions C22_next_step_continues_from_state.
+
 (** non-vacuity of the time-stepper theorems: a concrete run with 14 integrator answers that all meet [use_ok] *)
 Theorem C22_ex_ts_run :
   ex_summary (ts_stepTo Q false [ex_ss] ex_th ex_flow false 1 (ts_init Q 0 0) ex_orc) =
